@@ -316,7 +316,10 @@ func (r *runner) apply(a action) (string, string) {
 			}
 			rec.Eval(1)
 			want := r.freshKey(i)
-			if want == "HUNG" || got[k] == "HUNG" {
+			if want == "HUNG" {
+				return fmt.Sprintf("Resolve(%s@%s) on a fresh client did not return within %v", r.roots[i][0], r.roots[i][1], resolveTimeout), "returns"
+			}
+			if got[k] == "HUNG" {
 				return fmt.Sprintf("Resolve(%s@%s) did not return within %v", r.roots[i][0], r.roots[i][1], resolveTimeout), "returns"
 			}
 			if want != "" && got[k] != "" && got[k] != want {
